@@ -23,6 +23,23 @@ F = [
  ("C11","F8c","fixed",commit("trailing spaces"),"known/C11/F8-linkify-cjk.json","Linkify under CJK kept a soft break between wide characters when the line ends in a space (break flag on an empty text node)"),
  ("C11","F9","fixed",commit("East Asian"),"known/C11/F9-cjk-break-before-emphasis.json","CJK dropped the soft line break before a non-text node ('foo' newline '*bar*' rendered foo<em>bar</em>)"),
  ("C11","F17","known","","known/C11/F17-css3draft-ascii-punct.json","CJK with the EastAsianLineBreaksCSS3Draft style removes a soft line break next to any punctuation character, ASCII included ('a:' newline 'b' renders as 'a:b' for pure-ASCII input); the style's own tests pin the either-side reading of its rule, so it is recorded, not repaired; the default extension.CJK (Simple style) must hold without exception"),
+ ("C16","F10a","known","","known/C16/F10a-reference-in-image-alt.json","a footnote reference that sits in image alt text is counted although it is never rendered: the item gets a back-link to a reference id that does not exist (repair needs re-counting after tree surgery and renumbering; recorded, not repaired)"),
+ ("C16","F10b","known","","known/C16/F10b-reference-in-removed-footnote.json","a footnote reference inside the body of a footnote that is removed as unreferenced is still counted: the referenced item gets a dangling back-link (same root cause as F10a: references counted at parse time, never re-counted)"),
+ ("C08","F7","fixed",commit("HTML block types"),"known/C08/F7-html-block-closing-line.json","HTML block types 2-5: Continue advanced past the closing line's newline, so the next line's block-quote marker was swallowed"),
+ ("C10","F3","fixed",commit("alt attribute"),"known/C10/F3-img-alt-br.json","<br> inside img alt breaks the XHTML rewrite relation (only ' />' on void elements may differ)"),
+ ("C13","F5","fixed",commit("InsertBefore"),"known/C13/F5-insertbefore-nil.json","InsertBefore with a nil reference counted the child twice"),
+ ("C13","F5b","fixed",commit("InsertBefore"),"known/C13/F5-insertbefore-foreign.json","InsertBefore relative to a foreign node detached the insertee without inserting it"),
+ ("C13","F21","fixed",commit("InsertAfter"),"known/C13/F21-insertafter-next-sibling.json","InsertAfter(p, ref, c) with c already the next sibling of ref linked c to itself (cycle in the sibling chain)"),
+ ("C17","F22","fixed",commit("table header"),"known/C17/F22-short-header.json","a header row with fewer cells than the delimiter row was padded and became a table"),
+ ("C18","F11","fixed",commit("SetPosition/SetPadding"),"known/C18/F11-setposition-stale-peek.json","source reader SetPosition kept the stale peeked line / line head"),
+ ("C18","F23","fixed",commit("ResetPosition"),"known/C18/F23-resetposition.json","source reader ResetPosition resumed at the end of the current line instead of the start of the source"),
+ ("C18","F24","fixed",commit("BlockReader.Value"),"known/C18/F24-blockreader-value-padding.json","BlockReader.Value of a whole-line segment carried the padding of the following line"),
+ ("C19","F12","fixed",commit("URLEscape"),"known/C19/F12-urlescape-percent.json","URLEscape kept '%4g' (second hex digit never checked)"),
+ ("C19","F13","fixed",commit("BytesFilter"),"known/C19/F13-extend-shares-slots.json","BytesFilter.Extend shared bucket slices between the parent's derived filters"),
+ ("C19","F16","fixed",commit("decimal character"),"known/C19/F16-decimal-leading-zero.json","decimal character references with a leading zero were parsed as octal"),
+ ("C20","F14","fixed",commit("renderer panics"),"known/C20/F14-late-kind.json","renderer indexed its dispatch table with a node kind created after initialisation: panic"),
+ ("C06","F6","fixed",commit("table cell renderer"),"known/C06/F6-table-style-rerender.json","table cell renderer stored the computed style in the node: second render of the same tree differs"),
+ ("C12","F15","fixed",commit("ForceNewline"),"known/C12/F15-forcenewline-append.json","Segment.Value appended a newline into the spare capacity of the caller's source slice"),
 ]
 EXTRA = os.path.join(os.path.dirname(__file__), "known_extra.json")
 out = []
